@@ -56,12 +56,17 @@ inline int harness_main(int argc, char** argv)
   }
   harness_process_init(argc, argv);
   HarnessInfo hi = harness_info();
+#ifdef SIM_FLAVOUR_GUARD
+  const std::string hname = std::string(hi.name) + ".guard";   // guard-zone allocator flavour (no sanitizers)
+#else
+  const std::string hname = hi.name;
+#endif
   if(!replay.empty()) { from = 0; count = 1; }
   for(uint64_t r = from; r < from + count; ++r)
   {
     sim::Options o;
     o.property = hi.property;
-    o.harness = hi.name;
+    o.harness = hname;
     o.max_steps = hi.max_steps;
     o.seed = seed;
     o.run = r;
@@ -75,7 +80,7 @@ inline int harness_main(int argc, char** argv)
       if(const char* mul = getenv("SIM_BUDGET_MUL")) o.max_steps *= strtoull(mul, nullptr, 10);
     }
     else if(!trace_out.empty()) o.trace_out = trace_out;
-    else if(!trace_dir.empty()) o.trace_out = trace_dir + "/" + hi.name + "-" + std::to_string(o.seed) + "-" + std::to_string(r) + ".json";
+    else if(!trace_dir.empty()) o.trace_out = trace_dir + "/" + hname + "-" + std::to_string(o.seed) + "-" + std::to_string(r) + ".json";
     sim::run_begin(o);
     std::string extra = harness_run();
     sim::Stats st = sim::run_end();
